@@ -197,19 +197,16 @@ async fn resolve_with_nameserver_response<'a>(
             rrs, delegation, ..
         } => {
             context.cache.insert_all(&rrs);
-            if question.qtype == QueryType::Record(RecordType::A) {
-                if let Some(rr) = get_record(&rrs, &question.name, RecordType::A) {
-                    tracing::trace!("got recursive delegation - using glue A record");
-                    prioritising_merge(&mut combined_rrs, vec![rr.clone()]);
-                    return Ok(Ok(ResolvedRecord::NonAuthoritative {
-                        rrs: combined_rrs,
-                        soa_rr: None,
-                    }));
-                }
-            } else if question.qtype == QueryType::Record(RecordType::AAAA) {
-                if let Some(rr) = get_record(&rrs, &question.name, RecordType::AAAA) {
-                    tracing::trace!("got recursive delegation - using glue AAAA record");
-                    prioritising_merge(&mut combined_rrs, vec![rr.clone()]);
+            if let QueryType::Record(rtype @ (RecordType::A | RecordType::AAAA)) = question.qtype {
+                // every glue record of the asked name and type, not just the first
+                let glue = rrs
+                    .iter()
+                    .filter(|rr| rr.rtype_with_data.rtype() == rtype && rr.name == question.name)
+                    .cloned()
+                    .collect::<Vec<ResourceRecord>>();
+                if !glue.is_empty() {
+                    tracing::trace!("got recursive delegation - using glue records");
+                    prioritising_merge(&mut combined_rrs, glue);
                     return Ok(Ok(ResolvedRecord::NonAuthoritative {
                         rrs: combined_rrs,
                         soa_rr: None,
